@@ -54,6 +54,11 @@ fn scn_for(p: Vec<u8>, buf: BufKind, sub: &str) -> LinkScn {
     l
 }
 
+fn with_polls(mut l: LinkScn, rng: &mut Rng) -> LinkScn {
+    l.extra_polls = *rng.pick(&[64usize, 64, 64, 300, 300, 70_000]);
+    l
+}
+
 impl Prop for C07Prop {
     fn id(&self) -> &'static str {
         "C07"
@@ -132,7 +137,7 @@ impl Prop for C07Prop {
                     }
                 }
             }
-            return Scenario::Link(scn_for(p, BufKind::Arr(n), "capacity"));
+            return Scenario::Link(with_polls(scn_for(p, BufKind::Arr(n), "capacity"), rng));
         }
         let max = if rng.chance(1, 60) { 70_000 } else { 3000 };
         let mut p = gen::gen_payload(rng, tier, max);
@@ -140,7 +145,7 @@ impl Prop for C07Prop {
             let n = *rng.pick(&[65_535usize, 65_536, 65_537, 66_000]);
             p = gen::gen_payload_len(rng, n);
         }
-        let mut l = scn_for(p, BufKind::Vec, "vec");
+        let mut l = with_polls(scn_for(p, BufKind::Vec, "vec"), rng);
         if mode < 8 {
             l.alloc_fail = rng.range(1, 14) as u64;
             l.sub = "alloc-failure".into();
